@@ -265,6 +265,10 @@ where
         std::thread::sleep(Duration::from_micros(200));
     }
     let mut inconclusive = !caught_up_in_time;
+    let mut notes: Vec<String> = Vec::new();
+    if !caught_up_in_time {
+        notes.push(format!("subscribers had yielded up to ordinals {:?} of {nsets} after 60 s", progress.iter().map(|p| p.load(SeqCst)).collect::<Vec<_>>()));
+    }
     for (i, h) in handles.into_iter().enumerate() {
         let o = match h.join() {
             Ok(o) => o,
@@ -282,6 +286,7 @@ where
         }
         if o.gave_up {
             inconclusive = true;
+            notes.push(format!("subscriber {i} was told to stop after yielding {:?} ({} pending polls, ended: {})", o.seqs, o.pendings, o.ended));
             continue;
         }
         if o.seqs.first().is_some_and(|s| *s <= at[i]) {
@@ -295,7 +300,7 @@ where
         rep.count("threaded_subscribers_ok");
     }
     if inconclusive {
-        rep.inconclusive.push(format!("threaded case not over within its 60 s watchdogs; {desc}"));
+        rep.inconclusive.push(format!("threaded case not over within its 60 s watchdogs ({}); {desc}", notes.join("; ")));
     } else {
         rep.count("threaded_cases_ok");
     }
@@ -303,7 +308,7 @@ where
 
 pub fn run(cfg: &Cfg) -> Report {
     let mut rep = Report::new("C20", "c20-threads");
-    let n = cfg.n(24_000, 800_000);
+    let n = cfg.n(8_000, 800_000);
     for k in 0..n {
         let idx = k * cfg.shards as u64 + cfg.shard as u64;
         let seed = cfg.seed.wrapping_mul(1_000_003).wrapping_add(idx);
